@@ -31,6 +31,8 @@ impl Line {
     }
 
     pub fn insert_char(&mut self, index: i32, char_opt: AttributedChar) {
+        #[cfg(icy_engine_verif)]
+        crate::verif::tick(1);
         if index > self.chars.len() as i32 {
             self.chars.resize(index as usize, AttributedChar::invisible());
         }
@@ -38,6 +40,8 @@ impl Line {
     }
 
     pub fn set_char(&mut self, index: i32, char: AttributedChar) {
+        #[cfg(icy_engine_verif)]
+        crate::verif::tick(1);
         if index >= self.chars.len() as i32 {
             self.chars.resize(index as usize + 1, AttributedChar::invisible());
         }
